@@ -247,6 +247,8 @@ def run(ctx):
                           mechanism="not restored after normal exit: FitFractions.integral inside a temp_used_res block (object built outside)")
                 body()
 
+        KF_TRACED_MASK = "not restored after normal exit: mask_params whose block holds the first traced evaluation of a data object (use_tf_function)"
+
         def op_cal_ff(body):
             with quiet():
                 cfg.cal_fitfractions(mcdata=mc, batch=23)
@@ -436,6 +438,27 @@ def run(ctx):
                 ctx.count("seconds:op:" + name, int(__import__("time").time() - _t_op))
                 ctx.count("seconds:card:%d%s" % (i, "(traced)" if traced else ""), int(__import__("time").time() - _t_op))
             dg.set_used_chains(list(range(nch)))
+        # (iii') traced evaluation: on a FRESH model of the same card (no compiled function yet) a data object is evaluated once eagerly and
+        # its first traced evaluation happens inside a mask block; after the block its density must be the unmasked one again
+        if traced:
+            try:
+                with quiet():
+                    cfg_f = cards.load(card, extra_data={"use_tf_function": True})
+                    amp_f = cfg_f.get_amplitude()
+                    amp_f.set_params(amp.get_params())
+                    d2 = cfg_f.data.cal_angle([np.ascontiguousarray(p) for p in ps])
+                    ref2 = np.asarray(amp_f.pdf(d2))
+                    amp_f(d2)
+                    with amp_f.mask_params({pnames[0]: 0.5}):
+                        amp_f(d2)
+                    after2 = np.asarray(amp_f(d2))
+                dv2 = float(np.max(np.abs(after2 - ref2) / (np.abs(ref2) + 1e-300))) if after2.shape == ref2.shape else np.inf
+                ctx.check("state restored after normal exit", dv2 <= 1e-12, lambda: {"card": cards.short(card), "masked_parameter": pnames[0],
+                                                                                     "max_relative_change_of_the_density_after_the_block": dv2}, mechanism=KF_TRACED_MASK)
+                ctx.covered("operation", "mask_params(first traced evaluation inside the block)")
+            except Exception as e:
+                ctx.count("traced_first_evaluation_declined")
+                ctx.note("traced first-evaluation scenario declined: %r" % (e,))
         # (iv) abandoned generators
         dg.set_used_chains(list(range(nch)))
         ref = snapshot(cfg, amp, probe)
